@@ -233,3 +233,141 @@ theorem framing_fold (pfs : List PField) (hok : ∀ pf ∈ pfs, pf.ok) (hfp : Fr
   rw [getAll_fold pfs sTE (Or.inl rfl) hok hfp, getAll_fold pfs sCL (Or.inr rfl) hok hfp]
 
 end MitmVerif.C01
+
+namespace MitmVerif.C01
+open MitmVerif
+
+/-! ### `validate_headers` implies `FramingFieldsPlain`: an accepted Content-Length / Transfer-Encoding value contains no CR
+    and carries no surrounding OWS, hence is not folded -/
+
+theorem rstripBy_decomp {f : UInt8 → Bool} : ∀ (p : Bytes), ∃ s, p = rstripBy f p ++ s ∧ s.all f = true
+  | [] => ⟨[], by simp [rstripBy]⟩
+  | c :: rest => by
+    obtain ⟨s, hs, hall⟩ := rstripBy_decomp (f := f) rest
+    simp only [rstripBy]
+    cases h : rstripBy f rest with
+    | nil =>
+      rw [h] at hs
+      by_cases hc : f c = true
+      · refine ⟨c :: s, ?_, by simp [hc, hall]⟩
+        simp [hc]; simpa using hs
+      · refine ⟨s, ?_, hall⟩
+        simp [hc]; simpa using hs
+    | cons r rs =>
+      rw [h] at hs
+      exact ⟨s, by simp; simpa using hs, hall⟩
+
+theorem lstripBy_decomp {f : UInt8 → Bool} : ∀ (l : Bytes), ∃ s, l = s ++ lstripBy f l ∧ s.all f = true
+  | [] => ⟨[], by simp [lstripBy]⟩
+  | c :: rest => by
+    simp only [lstripBy]
+    by_cases hc : f c = true
+    · obtain ⟨s, hs, hall⟩ := lstripBy_decomp (f := f) rest
+      refine ⟨c :: s, ?_, by simp [hc, hall]⟩
+      simp [hc]; exact hs
+    · exact ⟨[], by simp [hc], by simp⟩
+
+theorem rstripBy_append_keep {f : UInt8 → Bool} (a : Bytes) {b : Bytes} {r : UInt8} {rs : Bytes}
+    (h : rstripBy f b = r :: rs) : rstripBy f (a ++ b) = a ++ r :: rs := by
+  induction a with
+  | nil => simpa using h
+  | cons c cs ih =>
+    simp only [List.cons_append, rstripBy, ih]
+    cases hcs : cs ++ r :: rs with
+    | nil => simp at hcs
+    | cons x xs => rfl
+
+theorem lower_eq_cr (c : UInt8) : (asciiLowerB c = 13) = (c = 13) := by
+  have h : ∀ n : Fin 256, (asciiLowerB (UInt8.ofNat n.val) = 13) = (UInt8.ofNat n.val = 13) := by decide +kernel
+  have := h ⟨c.toNat, UInt8.toNat_lt c⟩
+  simpa using this
+
+theorem cr_mem_lower {t : Bytes} : (13 : UInt8) ∈ asciiLower t ↔ (13 : UInt8) ∈ t := by
+  induction t with
+  | nil => simp [asciiLower]
+  | cons c cs ih =>
+    simp only [asciiLower, List.map_cons, List.mem_cons] at ih ⊢
+    rw [ih]
+    constructor
+    · rintro (h | h)
+      · left; have := (lower_eq_cr c).mp h.symm; exact this.symm
+      · right; exact h
+    · rintro (h | h)
+      · left; subst h; decide
+      · right; exact h
+
+theorem ows_no_cr {s : Bytes} (h : s.all isOws = true) : (13 : UInt8) ∉ s := by
+  intro hm
+  have := List.all_eq_true.mp h 13 hm
+  revert this; decide
+
+/-- what `parse_transfer_encoding` accepts contains no CR and has no surrounding OWS -/
+theorem parseTE_plain {t w : Bytes} {cls : TE} (h : parseTE t = some (cls, w)) :
+    (13 : UInt8) ∉ t ∧ stripBy isOws t = t := by
+  -- everything is shown for v = lower t first
+  have hv : (13 : UInt8) ∉ asciiLower t ∧ stripBy isOws (asciiLower t) = asciiLower t := by
+    have hn : teNormalize (asciiLower t) = w ∧ (w ∈ Gen.C01.teChunked ∨ w ∈ Gen.C01.teOther) := by
+      unfold parseTE at h
+      split at h
+      · simp at h
+      · dsimp only at h
+        split at h
+        · rename_i hm; simp at h; exact ⟨h.2, Or.inl (by rw [← h.2]; simpa using hm)⟩
+        · split at h
+          · rename_i hm; simp at h; exact ⟨h.2, Or.inr (by rw [← h.2]; simpa using hm)⟩
+          · simp at h
+    obtain ⟨hn, hw⟩ := hn
+    rw [teNormalize_eq] at hn
+    generalize asciiLower t = v at hn ⊢
+    have hno := trimmedPieces_no_sep (splitOn_pieces_no_sep 44 v)
+    have hne := trimmedPieces_ne_nil (splitOn_ne_nil 44 v)
+    have hsp := splitOn_joinWith _ hne hno
+    rw [hn] at hsp
+    have hjoin := joinWith_splitOn 44 v
+    have single : ∀ x : Bytes, splitOn 44 w = [x] → (13 : UInt8) ∉ x → stripBy isOws x = x →
+        (13 : UInt8) ∉ v ∧ stripBy isOws v = v := by
+      intro x hx h13 hs
+      rw [hx] at hsp
+      have := trimmed_single hsp.symm
+      rw [this] at hjoin
+      have : v = x := by simpa [joinWith] using hjoin.symm
+      subst this; exact ⟨h13, hs⟩
+    have double : ∀ (x y : Bytes) (a : UInt8) (x' : Bytes) (r : UInt8) (rs : Bytes), splitOn 44 w = [x, y] → x = a :: x' → isOws a = false →
+        rstripBy isOws y = r :: rs → y = r :: rs → (13 : UInt8) ∉ x → (13 : UInt8) ∉ y →
+        (13 : UInt8) ∉ v ∧ stripBy isOws v = v := by
+      intro x y a x' r rs hxy hxa ha hry hyr hx13 hy13
+      rw [hxy] at hsp
+      obtain ⟨p, l, hps, hp, hl⟩ := trimmed_double hsp.symm
+      rw [hps] at hjoin
+      obtain ⟨s1, hp1, hs1⟩ := rstripBy_decomp (f := isOws) p
+      obtain ⟨s2, hl2, hs2⟩ := lstripBy_decomp (f := isOws) l
+      rw [hp] at hp1; rw [hl] at hl2
+      have hv : v = x ++ (s1 ++ 44 :: s2) ++ y := by
+        have : v = p ++ [44] ++ l := by simpa [joinWith] using hjoin.symm
+        rw [this, hp1, hl2]; simp [List.append_assoc]
+      refine ⟨?_, ?_⟩
+      · rw [hv]
+        simp only [List.mem_append, List.mem_cons, not_or]
+        exact ⟨⟨hx13, ows_no_cr hs1, by decide, ows_no_cr hs2⟩, hy13⟩
+      · rw [hv]
+        unfold stripBy
+        have hl' : lstripBy isOws (x ++ (s1 ++ 44 :: s2) ++ y) = x ++ (s1 ++ 44 :: s2) ++ y := by
+          rw [hxa]; simp only [List.cons_append]; exact lstripBy_id ha
+        rw [hl', rstripBy_append_keep (x ++ (s1 ++ 44 :: s2)) hry, ← hyr]
+    rcases hw with hw | hw
+    · simp [Gen.C01.teChunked] at hw
+      rcases hw with rfl | rfl | rfl | rfl
+      · exact single _ rfl (by decide) (by decide)
+      · exact double _ _ _ _ _ _ rfl rfl (by decide) rfl rfl (by decide) (by decide)
+      · exact double _ _ _ _ _ _ rfl rfl (by decide) rfl rfl (by decide) (by decide)
+      · exact double _ _ _ _ _ _ rfl rfl (by decide) rfl rfl (by decide) (by decide)
+    · simp [Gen.C01.teOther] at hw
+      rcases hw with rfl | rfl | rfl | rfl <;> exact single _ rfl (by decide) (by decide)
+  refine ⟨fun hm => hv.1 (cr_mem_lower.mpr hm), ?_⟩
+  have h1 : asciiLower (stripBy isOws t) = asciiLower t := by rw [← stripBy_lower]; exact hv.2
+  have hlen : (stripBy isOws t).length = t.length := by
+    have := congrArg List.length h1
+    simpa [asciiLower] using this
+  exact (stripBy_infix isOws t).sublist.eq_of_length hlen
+
+end MitmVerif.C01
